@@ -29,6 +29,157 @@ Proof. apply unsup_not_can_equal_both. Qed.
 Definition sxe (keys up : bool) (F : atys -> gres) (t : aty) : Prop :=
   match t with AStruct fs => has_unsup_any keys up fs = true -> F fs = Err | _ => True end.
 
+(* ---------------- Ok implies no unsupported constituent at a visited position ---------------- *)
+Lemma can_equal_clean keys t : can_equal t = true -> has_unsup keys false t = false.
+Proof.
+  intros H. destruct (has_unsup keys false t) eqn:E; [|reflexivity].
+  apply unsup_not_can_equal in E. congruence.
+Qed.
+Lemma can_equal_all_clean keys l : can_equal_all l = true -> has_unsup_any keys false l = false.
+Proof.
+  intros H. destruct (has_unsup_any keys false l) eqn:E; [|reflexivity].
+  apply unsup_not_can_equal_all in E. congruence.
+Qed.
+
+Definition sxo (keys up : bool) (F : atys -> gres) (t : aty) : Prop :=
+  match t with AStruct fs => F fs = Ok -> has_unsup_any keys up fs = false | _ => True end.
+
+(* one unfolding of the generator at the head constructor, then case analysis on the tests it
+   makes (bounded: the recursive calls on the components stay folded and meet the induction
+   hypotheses) *)
+Ltac rep_step :=
+  match goal with
+  | H : Err = Ok |- _ => discriminate H
+  | H : (if ?b then _ else _) = Ok |- _ => destruct b eqn:?
+  | H : match ?x with _ => _ end = Ok |- _ => destruct x; try discriminate H
+  | H : _ ;; _ = Ok |- _ => apply gseq_ok in H as [? ?]
+  end.
+Ltac rep_fin :=
+  cbn [has_unsup has_unsup_any andb orb] in *;
+  repeat match goal with
+  | |- _ || _ = false => apply orb_false_intro
+  end;
+  try reflexivity; try discriminate;
+  try match goal with
+      | H : is_byte_slice_elem ?t = true |- _ =>
+          destruct t as [[]| | | | | | | | | | |]; try discriminate H; reflexivity
+      end;
+  eauto using can_equal_clean, can_equal_all_clean;
+  repeat match goal with
+  | H : ?A -> _, H' : ?A |- _ => specialize (H H')
+  | H : _ || _ = false |- _ => apply orb_false_elim in H as [? ?]
+  end; auto.
+Ltac rep_tac unf :=
+  try match goal with H : _ (TCons _ _) = Ok |- _ => revert H end;
+  try match goal with H : _ TNil = Ok |- _ => revert H end;
+  repeat match goal with
+  | H : _ /\ _ |- _ => destruct H
+  | |- _ /\ _ => split
+  end;
+  try exact I;
+  try (intros HOk; unf HOk; repeat rep_step; rep_fin).
+
+Lemma eq_ok_clean_both :
+  (forall t, (eq_stmt t = Ok -> has_unsup false false t = false) /\
+             (eq_field t = Ok -> has_unsup false false t = false) /\ sxo false false eq_fields t) /\
+  (forall l, eq_fields l = Ok -> has_unsup_any false false l = false).
+Proof.
+  apply aty_atys_ind; intros; cbn [sxo];
+    rep_tac ltac:(fun H => cbn [eq_stmt eq_field eq_fields] in H).
+Qed.
+
+Ltac basic_tac :=
+  try match goal with
+  | k : bkind |- _ => destruct k; cbn in *; try discriminate; reflexivity
+  end.
+
+Lemma cmp_ok_clean_both :
+  (forall t, (cmp_stmt t = Ok -> has_unsup true true t = false) /\ sxo true true cmp_fields t) /\
+  (forall l, cmp_fields l = Ok -> has_unsup_any true true l = false).
+Proof.
+  apply aty_atys_ind; intros; cbn [sxo];
+    rep_tac ltac:(fun H => cbn [cmp_stmt cmp_fields] in H); basic_tac.
+Qed.
+
+Lemma hash_ok_clean_both :
+  (forall t, (hash_stmt t = Ok -> has_unsup true true t = false) /\ sxo true true hash_fields t) /\
+  (forall l, hash_fields l = Ok -> has_unsup_any true true l = false).
+Proof.
+  apply aty_atys_ind; intros; cbn [sxo];
+    rep_tac ltac:(fun H => cbn [hash_stmt hash_fields] in H); basic_tac.
+Qed.
+
+Lemma dc_ok_clean_both :
+  (forall t, (dc_stmt t = Ok -> has_unsup true false t = false) /\
+             (dc_field t = Ok -> has_unsup true false t = false) /\ sxo true false dc_fields t) /\
+  (forall l, dc_fields l = Ok -> has_unsup_any true false l = false).
+Proof.
+  apply aty_atys_ind; intros; cbn [sxo];
+    rep_tac ltac:(fun H => cbn [dc_stmt dc_field dc_fields] in H).
+Qed.
+
+Lemma gs_ok_clean_both :
+  (forall t, (gs_stmt t = Ok -> has_unsup true false t = false) /\
+             (gs_field t = Ok -> has_unsup true false t = false) /\ sxo true false gs_fields t) /\
+  (forall l, gs_fields l = Ok -> has_unsup_any true false l = false).
+Proof.
+  apply aty_atys_ind; intros; cbn [sxo];
+    rep_tac ltac:(fun H => cbn [gs_stmt gs_field gs_fields] in H).
+  all: repeat match goal with
+       | H : _ && _ = true |- _ => apply andb_prop in H as [? ?]
+       end.
+  all: match goal with
+       | H : is_basic ?t = true |- has_unsup true false ?t = false =>
+           destruct t; try discriminate H; reflexivity
+       end.
+Qed.
+
+
+Lemma not_ok_err r : r <> Ok -> r <> Crash -> r = Err.
+Proof. destruct r; congruence. Qed.
+
+(* unsupported_reported, per generator: for ALL types *)
+Theorem unsupported_reported_equal t : has_unsup false false t = true -> eq_stmt t = Err.
+Proof.
+  intros U. apply not_ok_err; [|apply eq_stmt_nocrash].
+  intros O. apply eq_ok_clean_both in O. congruence.
+Qed.
+Theorem unsupported_reported_compare t : has_unsup true true t = true -> cmp_stmt t = Err.
+Proof.
+  intros U. apply not_ok_err; [|apply cmp_stmt_nocrash].
+  intros O. apply cmp_ok_clean_both in O. congruence.
+Qed.
+Theorem unsupported_reported_hash t : has_unsup true true t = true -> hash_stmt t = Err.
+Proof.
+  intros U. apply not_ok_err; [|apply hash_stmt_nocrash].
+  intros O. apply hash_ok_clean_both in O. congruence.
+Qed.
+Theorem unsupported_reported_deepcopy t : has_unsup true false t = true -> dc_stmt t = Err.
+Proof.
+  intros U. apply not_ok_err; [|apply dc_stmt_nocrash].
+  intros O. apply dc_ok_clean_both in O. congruence.
+Qed.
+Theorem unsupported_reported_gostring t : has_unsup true false t = true -> gs_stmt t = Err.
+Proof.
+  intros U. apply not_ok_err; [|apply gs_stmt_nocrash].
+  intros O. apply gs_ok_clean_both in O. congruence.
+Qed.
+Lemma eq_fields_unsup l : has_unsup_any false false l = true -> eq_fields l = Err.
+Proof.
+  intros U. apply not_ok_err; [|apply eq_nocrash_both].
+  intros O. apply eq_ok_clean_both in O. congruence.
+Qed.
+
+(* non-vacuity: the hypotheses are satisfiable on non-trivial inputs, and the conclusion is
+   not the constant Err *)
+Example unsupported_reported_nonvacuous :
+  has_unsup false false (AMap (ABasic KString) (APtr (ANamed 3 false (AStruct (TCons (ABasic KInt) (TCons (AChan DRecv (ABasic KInt)) TNil)))))) = true
+  /\ eq_stmt (AMap (ABasic KString) (APtr (ANamed 3 false (AStruct (TCons (ABasic KInt) (TCons (ASlice (ABasic KInt)) TNil)))))) = Ok
+  /\ has_unsup true true (ASlice (ABasic KUnsafePtr)) = true /\ cmp_stmt (ASlice (ABasic KFloat64)) = Ok
+  /\ has_unsup false false (AMap (AChan DBoth (ABasic KInt)) (ABasic KInt)) = false
+  /\ eq_stmt (AMap (AChan DBoth (ABasic KInt)) (ABasic KInt)) = Ok.
+Proof. vm_compute. repeat split. Qed.
+
 (* ---------------- witnesses: the code before the fixes ---------------- *)
 Definition t_chan_field : aty := ANamed 1 false (AStruct (TCons (AChan DBoth (ABasic KInt)) TNil)).
 
@@ -71,11 +222,15 @@ Proof. vm_compute. auto. Qed.
 Lemma gostring_ptr_swallow_refuted_w :
   gs_ptr_prefix (AChan DBoth (ABasic KInt)) = Ok /\ gs_stmt (APtr (AChan DBoth (ABasic KInt))) = Err.
 Proof. vm_compute. auto. Qed.
-(* min/max emitted `a < b` for bool *)
-Lemma minmax_bool_refuted_w :
-  minmax_elem_prefix (ABasic KBool) = Ok /\ must_report PMin [ABasic KBool; ABasic KBool] = true
-  /\ run_model PMin [ABasic KBool; ABasic KBool] = Err.
-Proof. vm_compute. auto. Qed.
+(* min/max emitted `a < b` for every basic type: bool (repaired upstream by f31a48b, which sends
+   it through deriveCompare) and unsafe.Pointer (now reported) *)
+Lemma minmax_unordered_refuted_w :
+  minmax_elem_prefix (ABasic KBool) = Ok /\ is_ordered KBool = false /\
+  minmax_elem_prefix (ABasic KUnsafePtr) = Ok /\
+  must_report PMin [ABasic KUnsafePtr; ABasic KUnsafePtr] = true
+  /\ run_model PMin [ABasic KUnsafePtr; ABasic KUnsafePtr] = Err
+  /\ run_model PMin [ABasic KBool; ABasic KBool] = Ok.
+Proof. vm_compute. repeat split. Qed.
 (* FieldStrings on a struct with a single field *)
 Lemma fieldstrings_single_refuted_w : fieldstrings_prefix 1 = Crash.
 Proof. reflexivity. Qed.
